@@ -38,6 +38,27 @@ CHECKS = {
    note=SEQ_NOTE),
 }
 
+BUF_NOTE = ("Trusted base: the flat-sequence / capacity-tree models and the lawful harness fakes in sim/buf/src, SimAlloc, rustc. "
+            "Sampled nests (depth <=4) and operation sequences only; leaf sizes <= 120 bytes.")
+CHECKS.update({
+ "C09": dict(engine="E-buf", cat="exploration", ref="DESIGN.md §5 C09",
+   technique="deterministic simulation of byte streams: seeded chunk segmentation (short-read analogue, incl. empty chunks) and adapter nesting of every Buf implementor, cursor operations checked step by step against a flat Vec<u8> model",
+   text="Every Buf of the crate (slice, Bytes in each representation, BytesMut, Cursor over Vec/slice/Bytes incl. position beyond the end, VecDeque incl. wrapped, Chain, Take, &mut, Box, Box<dyn Buf>) in seeded nests to depth 4 over lawful segmented leaves; remaining/chunk/advance/chunks_vectored/copy_to_slice/copy_to_bytes/into_iter laws after every operation; debug and release.",
+   note=BUF_NOTE),
+ "C10": dict(engine="E-buf", cat="exploration", ref="DESIGN.md §5 C10",
+   technique="deterministic simulation of byte streams: stratified placement of chunk boundaries inside and around each value x every get_/try_get_ method x nbytes x shortfall, expectation from from_{be,le,ne}_bytes on the flat model",
+   text="Weakest fit for the technique (only the segmentation is environment-controlled); decided in E-buf because the same runs already cut sources at every offset. Half of the runs enumerate (method, nbytes, boundary position, shortfall) cells, half are random nests; value, cursor movement, Err fields and panics are compared with the model in debug and release.",
+   note=BUF_NOTE),
+ "C11": dict(engine="E-buf", cat="exploration", ref="DESIGN.md §5 C11",
+   technique="deterministic simulation of byte sinks: seeded target nests (Vec, BytesMut, &mut [u8], &mut [MaybeUninit<u8>], segmented user BufMut, Chain, Limit, &mut, Box) inside guard-byte frames, appended-bytes and capacity-tree model, segmented sources for put(Buf), read-back with the matching getter",
+   text="After each put_X/put_slice/put_bytes/put(Buf)/manual chunk_mut+advance_mut: remaining_mut, chunk_mut laws, exact fill levels; at the end the flattened target equals the appended bytes, guard bytes and bytes after the cursor are untouched, every typed value reads back; writes that do not fit must panic.",
+   note=BUF_NOTE),
+ "C12": dict(engine="E-buf", cat="exploration", ref="DESIGN.md §5 C12",
+   technique="deterministic simulation of byte streams: adapters at the root, nested and temporary (take/limit/chain/reader/writer over &mut nest), set_limit and get_mut mid-stream, deep inspection via limit()/get_ref()/first_ref()/last_ref()/into_inner() against the model",
+   text="Limits 0/inside/equal/beyond/usize::MAX, set_limit changes mid-stream, io::Read/BufRead/Write transfers of min(available, requested); after any sequence every inner buffer must have advanced by exactly the bytes that went through its adapter.",
+   note=BUF_NOTE),
+})
+
 NOT_YET = {
  "C05": "not yet claimed: E-sched (shuttle) check under construction",
  "C06": "not yet claimed: E-miri / HB-ledger check under construction",
